@@ -903,6 +903,95 @@ example :
   · rw [C12.forward_backward_pd_aliased_invariant_run 1 1 (1 / 2) (1 / 2) 1 (by norm_num)]
     simp only [fbpdQ]; norm_num
 
+/-! ### Executed definitions: FISTA momentum, Douglas–Rachford call, MLEM/OSMLEM, given steps -/
+
+/-- FISTA momentum of the executed `accStep` (with `sqrt = Real.sqrt`): for every state, the new
+`t' = (1 + √(1 + 4t²))/2` satisfies the Beck–Teboulle identity `t'² − t' = t²` and `t' ≥ 1`; and for
+`t ≥ 1` (true along every run, which starts at `t = 1`) the extrapolation weight
+`α = (t − 1)/t'` lies in `[0, 1)`. -/
+theorem C12.fista_momentum_identity {X : Type} [AddCommGroup X] [Module ℝ X]
+    (P : ProxGradP ℝ X) (s : AccProxGradS ℝ X) :
+    let t' := (P.accStep Real.sqrt s).t
+    t' ^ 2 - t' = s.t ^ 2 ∧ 1 ≤ t' ∧ (1 ≤ s.t → 0 ≤ (s.t - 1) / t' ∧ (s.t - 1) / t' < 1 ∧ s.t ≤ t') := by
+  intro t'
+  have ht' : t' = (1 + Real.sqrt (1 + 4 * (s.t * s.t))) / 2 := rfl
+  have h0 : (0 : ℝ) ≤ 1 + 4 * (s.t * s.t) := by nlinarith [mul_self_nonneg s.t]
+  have hsq := Real.mul_self_sqrt h0
+  have hr0 := Real.sqrt_nonneg (1 + 4 * (s.t * s.t))
+  set r := Real.sqrt (1 + 4 * (s.t * s.t)) with hr
+  have hr1 : 1 ≤ r := by
+    have : (1 : ℝ) ≤ r * r := by rw [hsq]; nlinarith [mul_self_nonneg s.t]
+    nlinarith
+  refine ⟨by rw [ht']; nlinarith, by rw [ht']; linarith, fun h1 => ?_⟩
+  have hrt : 2 * s.t ≤ r := by
+    have : (2 * s.t) * (2 * s.t) ≤ r * r := by rw [hsq]; nlinarith
+    nlinarith [abs_le_of_sq_le_sq' (by nlinarith : (2 * s.t) ^ 2 ≤ r ^ 2) hr0]
+  have hpos : 0 < t' := by rw [ht']; linarith
+  have hle : s.t ≤ t' := by rw [ht']; linarith
+  refine ⟨div_nonneg (by linarith) hpos.le, ?_, hle⟩
+  rw [div_lt_one hpos]; linarith
+
+/-- along every run of FISTA from `accInit` (`t = 1`): `t ≥ 1` after every number of iterations -/
+theorem C12.fista_t_ge_one {X : Type} [AddCommGroup X] [Module ℝ X] (P : ProxGradP ℝ X)
+    (x0 junk : X) (n : Nat) : 1 ≤ ((P.accStep Real.sqrt)^[n] (P.accInit x0 junk)).t := by
+  apply iterate_inv (P.accStep Real.sqrt) (fun s => 1 ≤ s.t) _ n _ (by simp [ProxGradP.accInit])
+  intro s _; exact (C12.fista_momentum_identity P s).2.1
+
+/-- `pdhg_stepsize` / `douglas_rachford_pd_stepsize` with BOTH steps given return them as they are
+(no validation, no norm estimate is computed), for every norm argument. -/
+theorem C12.stepsize_given_returned_as_is (sqrt : ℝ → ℝ) (Lnorm t s : ℝ) (norms sig : List ℝ) :
+    pdhgStepsize sqrt Lnorm (some t) (some s) = (t, s) ∧
+    drStepsize norms (some t) (some sig) = (t, sig) := ⟨rfl, rfl⟩
+
+/-- `douglas_rachford_pd` as executed (`DrP.run`, any number of operators, with or without the `l`
+terms, all parameters arbitrary): a call with `niter = n + 1` invokes the callback exactly `n + 1`
+times, the last callback sees the proximal point `p1` of the last iteration, and THAT point is what
+the call returns in `x` (the early `x.assign(p1); return` of the last iteration) — not the governing
+iterate the loop works with. -/
+theorem C12.douglas_rachford_pd_run_returns_last_callback {K V W : Type} [Field K] [AddCommGroup V]
+    [Module K V] [AddCommGroup W] [Module K W] (P : DrP K V W) (z : V) (s : DrS V W) (n : Nat) :
+    (P.run z (n + 1) s).log.length = s.log.length + (n + 1) ∧
+    (P.run z (n + 1) s).log.getLast? = some (P.run z (n + 1) s).x ∧
+    (P.run z (n + 1) s).x = (P.half ((P.step z)^[n] s)).1 := by
+  have hlen : ((P.step z)^[n] s).log.length = s.log.length + n * 1 :=
+    iterate_count (P.step z) (fun s => s.log.length) 1 (fun s => by simp [dr_step_log]) n s
+  simp only [DrP.run, DrP.last, iter_eq]
+  refine ⟨by simp [hlen]; ring, by simp, trivial⟩
+
+/-- `niter = 0`: nothing happens. -/
+theorem C12.douglas_rachford_pd_run_zero {K V W : Type} [Field K] [AddCommGroup V] [Module K V]
+    [AddCommGroup W] [Module K W] (P : DrP K V W) (z : V) (s : DrS V W) : P.run z 0 s = s := rfl
+
+/-- MLEM / OSMLEM (any number of subsets): a point that reproduces the data of every subset,
+`clamp(A_i x) = g_i`, is a FIXED POINT of the executed iteration — provided the entry-wise
+operations behave as such on the quantities that occur (`g/g = 1`, `A_i* 1 = s_i`, `s/s = 1`,
+`x · 1 = x`: the leaf hypotheses; they hold for positive data and the default sensitivities). -/
+theorem C12.osmlem_consistent_fixed_point {V W : Type} (P : OsmlemP V W) (x : V) (oneW : W) (oneV : V)
+    (hdata : ∀ i, P.clampW (P.op i x) = P.data i)
+    (hdiv : ∀ i, P.divW (P.data i) (P.data i) = oneW)
+    (hsens : ∀ i, P.opAdj i oneW = P.sens i)
+    (hdivV : ∀ i, P.divV (P.sens i) (P.sens i) = oneV)
+    (hmul : P.mulV x oneV = x) (s : OsmlemS V W) (hs : s.x = x) (n : Nat) :
+    (P.step^[n] s).x = x := by
+  apply iterate_inv P.step (fun s => s.x = x) _ n s hs
+  intro t ht
+  apply forRange_inv P.inner (fun s => s.x = x) _ P.nOps t ht
+  intro i a ha
+  simp only [OsmlemP.inner, ha, hdata, hdiv, hsens, hdivV, hmul]
+
+/-- Non-vacuity on `ℚ` (one subset, `A = 2·`, data `6`, sensitivity `A*1 = 2`): `x = 3` is consistent
+and stays fixed, while `x = 1` moves to `3` in one iteration (MLEM is exact here). -/
+example :
+    let P : OsmlemP ℚ ℚ := ⟨1, fun _ x => 2 * x, fun _ y => 2 * y, fun _ => 6, fun _ => 2,
+      fun t => if t < 1 / 100000000 then 1 / 100000000 else t, fun a b => a / b, fun a b => a / b,
+      fun a b => a * b⟩
+    (P.step^[5] ⟨3, 0, fun _ => 0, []⟩).x = 3 ∧ (P.step^[1] ⟨1, 0, fun _ => 0, []⟩).x = 3 := by
+  constructor
+  · apply C12.osmlem_consistent_fixed_point _ 3 1 1 <;> intros <;> norm_num
+  · simp only [Function.iterate_succ, Function.iterate_zero, Function.comp, OsmlemP.step, forRange,
+      List.range, List.range.loop, List.foldl, OsmlemP.inner]
+    norm_num
+
 /-! ### Non-vacuity -/
 
 /-- Non-vacuity of the operator hypotheses (Landweber, Kaczmarz, CGN, power method): on
